@@ -50,3 +50,95 @@ C["kneeliverse.evaluation.cm"] = dict(
         "pigeonhole(used_knees, len(knees))",
     ])},
 )
+
+
+# ================================================================== C15: global reconstruction cost and its cache
+METRIC = "Enum[kneeliverse.metrics.Metrics]"
+V = "Seq[Real]"
+NP = "len(points)"
+
+# summaries (mode U): deterministic functions of the argument contents; the partial cost is a sum of squares / absolute values
+C["kneeliverse.linear_fit.linear_fit_transform_points"] = dict(
+    mode="U", summary=True, params={"points": PTS, "vertical": "Bool"}, returns=V,
+    requires=["len(points) >= 1"], returns_expr="ufa('FitTransform', 'Real', len(points), points)", ensures=[])
+C["kneeliverse.evaluation.compute_partial_cost"] = dict(
+    mode="U", summary=True, params={"y": V, "y_hat": V, "cost": METRIC, "eps": "Real"}, returns="Real",
+    requires=["len(y) == len(y_hat)"],
+    ensures=["result == uf('PartialCost', 'Real', y, y_hat, cost)", "result >= 0"])
+
+
+def seg_err(l, r):
+    """error the library's primitives assign to the segment of points l..r (both ends included); <= 2 points contribute 0"""
+    sl = "points[%s:(%s) + 1]" % (l, r)
+    return ("ite((%s) - (%s) + 1 <= 2, 0.0, uf('PartialCost', 'Real', %s[:, 1], ufa('FitTransform', 'Real', (%s) - (%s) + 1, %s), cost))"
+            % (r, l, sl, r, l, sl))
+
+
+TSS = "Sum(0, %s, lambda k: sq(points[k][1] - Sum(points[:, 1]) / %s))" % (NP, NP)
+
+
+def cache_ok(c):
+    return ["forall(0, %s, lambda l: forall(0, %s, lambda r: implies((l, r) in %s, %s[(l, r)] == %s and %s[(l, r)] >= 0)))" % (NP, NP, c, c, seg_err("l", "r"), c),
+            "implies('tss' in %s, %s['tss'] == %s)" % (c, c, TSS)]
+
+
+def combine(S, total, tss):
+    """the statement's accumulation: R2 = 1 - rss/tss clipped at 0; rmsle/rmspe = sqrt(S/total); rpd/smape = S/total"""
+    r2 = "max2(ite(%s == 0, 1.0 - %s, 1.0 - %s / %s), 0.0)" % (tss, S, S, tss)
+    return ("ite(old(cost) is metrics.Metrics.r2, %s, ite(old(cost) is metrics.Metrics.rmsle or old(cost) is metrics.Metrics.rmspe, "
+            "max2(sqrt(%s / %s), 0.0), max2(%s / %s, 0.0)))" % (r2, S, total, S, total))
+
+
+# compute_cost: verified against its body; the divisor counts every interior breakpoint once per adjoining segment
+TSSV = "ite('tss' in old(cache), old(cache)['tss'], %s)" % TSS
+C["kneeliverse.evaluation.compute_cost"] = dict(
+    mode="R", owner="C15",
+    params={"points": PTS, "segment_errors": V, "cost": METRIC, "cache": "Dict"}, returns="Real",
+    modifies=["cache"],
+    requires=["len(points) >= 1", "len(segment_errors) >= 1", "forall(0, len(segment_errors), lambda k: segment_errors[k] >= 0)"],
+    ensures=[
+        "result == %s" % combine("Sum(old(segment_errors))", "(%s + len(segment_errors) - 1)" % NP, TSSV),
+        "result >= 0",
+        # frame of the cache: segment entries untouched; 'tss' only ever set to the total sum of squares of the curve
+        "forall(0, %s, lambda l: forall(0, %s, lambda r: ((l, r) in cache) == ((l, r) in old(cache)) and cache[(l, r)] == old(cache)[(l, r)]))" % (NP, NP),
+        "implies('tss' in old(cache), 'tss' in cache and cache['tss'] == old(cache)['tss'])",
+        "implies('tss' in cache and not ('tss' in old(cache)), cache['tss'] == %s)" % TSS,
+    ],
+)
+
+RED = ["len(reduced) >= 2", "reduced[0] >= 0", "reduced[len(reduced)-1] <= %s - 1" % NP,
+       "forall2(0, len(reduced), lambda a, b: reduced[a] < reduced[b])"]
+GC_RESULT = combine("Sum(0, len(reduced) - 1, lambda k: %s)" % seg_err("reduced[k]", "reduced[k+1]"),
+                    "(%s + len(reduced) - 2)" % NP, "TSSC")
+
+
+def gc_contract(shared):
+    cache_tss = "ite('tss' in old(cache), old(cache)['tss'], %s)" % TSS if shared else TSS
+    c = dict(
+        function="kneeliverse.evaluation.compute_global_cost", mode="U", owner="C15",
+        params={"points": PTS, "reduced": "Seq[Int]", "cost": METRIC, "cache": "Dict" if shared else "None"}, returns="Real",
+        locals={"segment_errors": V},
+        requires=["len(points) >= 2"] + RED + (cache_ok("cache") if shared else []),
+        ensures=["result == %s" % GC_RESULT.replace("TSSC", cache_tss), "result >= 0"],
+        loops={0: dict(inv=[
+            "left == reduced[_it0]",
+            "len(segment_errors) == len(reduced) - 1",
+            "forall(0, _it0, lambda k: segment_errors[k] == %s)" % seg_err("reduced[k]", "reduced[k+1]"),
+            "forall(0, len(segment_errors), lambda k: segment_errors[k] >= 0)",
+        ] + cache_ok("cache") + ([
+            "forall(0, %s, lambda l: forall(0, %s, lambda r: implies((l, r) in old(cache), (l, r) in cache and cache[(l, r)] == old(cache)[(l, r)])))" % (NP, NP),
+            "('tss' in cache) == ('tss' in old(cache)) and implies('tss' in cache, cache['tss'] == old(cache)['tss'])",
+        ] if shared else ["not ('tss' in cache)"]))},
+    )
+    if shared:
+        c["modifies"] = ["cache"]
+        # cache transparency: the enlarged cache is still consistent with the curve, old entries are unchanged, and the result above
+        # does not mention the cache (apart from reusing a consistent 'tss') - so any query sequence sharing one cache returns what
+        # fresh caches return (induction over the sequence with invariant CacheOK; a lemma over this contract)
+        c["ensures"] = c["ensures"] + cache_ok("cache") + [
+            "forall(0, %s, lambda l: forall(0, %s, lambda r: implies((l, r) in old(cache), (l, r) in cache and cache[(l, r)] == old(cache)[(l, r)])))" % (NP, NP)]
+    return c
+
+
+C["kneeliverse.evaluation.compute_global_cost#shared"] = gc_contract(True)
+C["kneeliverse.evaluation.compute_global_cost#fresh"] = gc_contract(False)
